@@ -47,6 +47,8 @@ var headers = []string{
 	"on:\n  workflow_call:\n    inputs:\n      flag:\n        type: boolean\n    secrets:\n      TOKEN:\n        required: true\nenv:\n  TOP: x\n",
 }
 
+var commonIDs = []string{"build", "test", "setup"}
+
 var shells = []string{"bash", "pwsh", "python", "sh", "cmd", "powershell", "zsh", "bash -e {0}", "python {0}"}
 
 type matrixKind int
@@ -60,10 +62,12 @@ const (
 )
 
 type ectx struct {
-	matrix   matrixKind
-	stepIDs  []string
-	needs    [][2]string // id, output ("" = none)
-	inScript bool
+	matrix     matrixKind
+	stepIDs    []string
+	needs      [][2]string // id, output ("" = none)
+	inScript   bool
+	stepLevel  bool
+	forceShell bool
 }
 
 func genExpr(r *hx.Rng, c *ectx) string {
@@ -89,6 +93,10 @@ func genExpr(r *hx.Rng, c *ectx) string {
 		pool = append(pool, "steps."+id+".outputs.foo", "steps."+id+".conclusion", "steps."+id+".bad", "steps."+strings.ToUpper(id)+".outcome")
 	}
 	pool = append(pool, "steps.nosuch.outputs.x")
+	if !c.stepLevel {
+		// ids that other jobs may define as well: in scope only if this job defined them earlier
+		pool = append(pool, "steps.build.conclusion", "steps.test.outputs.x")
+	}
 	for _, n := range c.needs {
 		pool = append(pool, "needs."+n[0]+".result", "needs."+n[0]+".outputs.nope")
 		if n[1] != "" {
@@ -169,7 +177,9 @@ func genStep(r *hx.Rng, c *ectx, ind, id string, forceID bool) []string {
 		}
 		add("run: " + r.Pick(scripts))
 		c.inScript = false
-		if r.Chance(1, 3) {
+		if c.forceShell {
+			add("shell: " + r.Pick([]string{"sh", "cmd", "powershell", "bash"}))
+		} else if r.Chance(1, 3) {
 			add("shell: " + r.Pick(shells))
 		}
 		if r.Chance(1, 6) {
@@ -243,8 +253,10 @@ func genJob(r *hx.Rng, id string, needs [][2]string, rawNeeds []string, declOutp
 	if r.Chance(3, 5) {
 		ml = matrixLines(r, c, ind)
 	}
-	if !r.Chance(1, 15) {
+	if !r.Chance(1, 8) {
 		ls = append(ls, ind+"runs-on: "+r.Pick(runsOn))
+	} else {
+		c.forceShell = true // runs-on missing (reported by the parser): the platform is unknown
 	}
 	ls = append(ls, ml...)
 	if r.Chance(1, 3) {
@@ -271,6 +283,8 @@ func genJob(r *hx.Rng, id string, needs [][2]string, rawNeeds []string, declOutp
 		sid := fmt.Sprintf("%ss%d", id, i)
 		if i > 0 && r.Chance(1, 10) {
 			sid = fmt.Sprintf("%sS%d", id, i-1) // duplicate (case-insensitive) inside the part
+		} else if r.Chance(1, 4) {
+			sid = commonIDs[i%len(commonIDs)] // the same id may be used by other jobs: unrelated
 		}
 		ls = append(ls, genStep(r, c, ind+"  ", sid, false)...)
 	}
@@ -332,7 +346,7 @@ var hosts = []host{
 
 // step parts are generated for a host (the matrix kind decides the expression pool)
 func genStepPart(r *hx.Rng, idx int, h host) part {
-	c := &ectx{matrix: h.Matrix}
+	c := &ectx{matrix: h.Matrix, stepLevel: true}
 	if strings.Contains(h.Text, "needs: [first]") {
 		c.needs = [][2]string{{"first", "o1"}}
 	}
